@@ -448,7 +448,7 @@ class Interp(object):
         val.run_validation()
         return {"issues": first, "again": self._issues(val.errors), "rerun": first}
 
-    def op_validate_custom(self, x, klass="section", report=False, raising=False):
+    def op_validate_custom(self, x, klass="section", report=False, raising=False, keep=False):
         from odml.validation import Validation, ValidationError, IssueID
 
         def marker(obj):
@@ -495,8 +495,55 @@ class Interp(object):
         second = self._issues(val.errors)
         late_ok = sorted(i[:3] for i in second if i[3] == "simkit-marker-2") == \
             sorted(i[:3] for i in first if i[3] == "simkit-marker")
-        return {"issues": first, "report": rep, "empty_at_start": empty_at_start,
-                "late_rule_applied": late_ok}
+        out = {"issues": first, "report": rep, "empty_at_start": empty_at_start,
+               "late_rule_applied": late_ok}
+        if keep:
+            # the caller keeps a custom Validation of its own (one rule, a function nobody else
+            # holds) and comes back to it later: op custom_again
+            mine = Validation(x, validate=False, reset=True)
+            mine.register_custom_handler(klass, self._fresh_marker())
+            import gc
+            gc.collect()
+            mine.run_validation()
+            self.U.__dict__.setdefault("kept_custom", []).append(
+                {"val": mine, "x": x, "klass": klass, "issues": self._issues(mine.errors)})
+            # what the rule reports when the caller holds on to the function as well
+            held = self._fresh_marker()
+            twin = Validation(x, validate=False, reset=True)
+            twin.register_custom_handler(klass, held)
+            twin.run_validation()
+            out["kept_issues"] = self._issues(mine.errors)
+            out["kept_expected"] = self._issues(twin.errors)
+        return out
+
+    @staticmethod
+    def _fresh_marker():
+        from odml.validation import ValidationError, IssueID
+
+        def kept_marker(obj):
+            yield ValidationError(obj, "simkit-marker", "warning", IssueID.custom_validation)
+        return kept_marker
+
+    def op_custom_again(self, k=0, rerun=False):
+        """A kept custom Validation: its issue list is what it was (nothing has run it since),
+        and run again it reports what a new custom Validation with the same rule reports."""
+        from odml.validation import Validation
+        kept = self.U.__dict__.get("kept_custom") or []
+        if not kept:
+            raise Skip("no kept custom validation")
+        ent = kept[k % len(kept)]
+        now = self._issues(ent["val"].errors)
+        out = {"stored": ent["issues"], "now": now}
+        if rerun:
+            ent["val"].run_validation()
+            again = self._issues(ent["val"].errors)
+            twin = Validation(ent["x"], validate=False, reset=True)
+            held = self._fresh_marker()
+            twin.register_custom_handler(ent["klass"], held)
+            twin.run_validation()
+            out.update({"rerun": again, "twin": self._issues(twin.errors)})
+            ent["issues"] = again
+        return out
 
     # -- durable store ------------------------------------------------------------------------------
     def _path(self, name, backend):
